@@ -202,4 +202,38 @@ theorem Live.order_terminates_eventually (adj : σ → K → List (K × E)) (cb 
     ∃ F r, ∀ fuel, F ≤ fuel → orderEdgesL adj cb post root fuel st0 = some r :=
   Live.order_terminates_eventually' adj cb post root nodes I n st0 hroot hI0 hI hclosed hstop
 
+/-- an iterator is a position: suspended at position `pos` and resumed in a state the loop body does not change, it
+    hands out exactly the entries from `pos` on of the list as it is then (whatever the list was when the iterator was
+    created or last stepped) -/
+theorem Live.iter_resumes (c : LCfg σ K E) (u : K) (st : σ) (hcb : ∀ i e, (c.cb i e st).1 = st)
+    (fuel pos : Nat) (log : Log σ K E) (hf : (c.adj st u).length - pos < fuel) :
+    iterLoop c u fuel pos st log
+      = some (st, log ++ ((c.adj st u).drop pos).map fun p => ((u, p.1, p.2), st)) := by
+  induction fuel generalizing pos log with
+  | zero => omega
+  | succ fuel ih =>
+    unfold iterLoop
+    cases h : (c.adj st u)[pos]? with
+    | none =>
+      have hp : (c.adj st u).length ≤ pos := by
+        rcases Nat.lt_or_ge pos (c.adj st u).length with hlt | hge
+        · simp [List.getElem?_eq_getElem hlt] at h
+        · exact hge
+      simp [List.drop_eq_nil_of_le hp]
+    | some ve =>
+      obtain ⟨v, e⟩ := ve
+      have hlt : pos < (c.adj st u).length := by
+        rcases Nat.lt_or_ge pos (c.adj st u).length with hlt | hge
+        · exact hlt
+        · simp [List.getElem?_eq_none hge] at h
+      have hget : (c.adj st u)[pos] = (v, e) := by
+        have := List.getElem?_eq_getElem hlt
+        rw [this] at h
+        exact Option.some.inj h
+      simp only [hcb]
+      rw [ih (pos + 1) (log ++ [((u, v, e), st)]) (by omega)]
+      have hd : (c.adj st u).drop pos = (v, e) :: (c.adj st u).drop (pos + 1) := by
+        rw [← hget]; exact (List.drop_eq_getElem_cons hlt)
+      simp [hd, List.append_assoc]
+
 end G
